@@ -127,9 +127,9 @@ func pace(r *mon.Rand, mode int) {
 	}
 }
 
-func classify(v tok, err error) elem {
+func classify(v any, err error) elem {
 	if err == nil {
-		return elem{K: eVal, Src: v.Src, Seq: v.Seq, Val: v.Val}
+		return describe(v)
 	}
 	if errors.Is(err, io.EOF) {
 		return elem{K: eEOF}
@@ -160,11 +160,18 @@ type runOut struct {
 	stuck    []mon.G
 	settled  bool
 	leakRun  bool
+	bufDiffs []bufDiff // cells of caller-owned slices that differ from what the caller put there
 }
 
-type reader = *schema.StreamReader[tok]
+type bufDiff struct {
+	Buf, Cell int
+	Want, Got elem
+	Owner     int32 // source whose window covers the cell, -1: spare capacity / gap
+}
 
-func runWriter(sw *schema.StreamWriter[tok], s *srcSpec, gate <-chan struct{}, r *mon.Rand, lg *wlog, stamp func() uint64) {
+type reader = xReader
+
+func runWriter(sw xWriter, s *srcSpec, gate <-chan struct{}, r *mon.Rand, lg *wlog, stamp func() uint64) {
 	lg.pan = mon.Safe(func() {
 		lg.op = "Send"
 		if gate != nil {
@@ -172,10 +179,12 @@ func runWriter(sw *schema.StreamWriter[tok], s *srcSpec, gate <-chan struct{}, r
 		}
 		for i, k := range s.Items {
 			pace(r, s.Pace)
-			var chunk tok
+			var chunk *elem
 			var err error
 			if k != 1 {
-				chunk = tok{Src: s.ID, Seq: int32(i), Val: val0(s.ID, int32(i))}
+				e := s.elemAt(i)
+				e.K = eVal
+				chunk = &e
 			}
 			if k != 0 {
 				err = &srcErr{Src: s.ID, Seq: int32(i)}
@@ -234,6 +243,11 @@ func runEnd(rd reader, e *endSpec, limit int, r *mon.Rand, lg *elog, stamp func(
 			lg.closed = true
 		}
 	})
+	if lg.pan != nil && lg.op == "Recv" {
+		// Recv panicked (reported by the oracle): release the reader like a caller with a deferred
+		// Close would, so that the writers of this tree are not left blocked by the harness.
+		mon.Safe(func() { rd.Close() })
+	}
 }
 
 // ignoredG: goroutines known to be parked for ever because of an earlier
@@ -268,15 +282,38 @@ func runTree(t *tree, sc schedule, rr *mon.Rand) *runOut {
 	type launch func()
 	var late []launch
 	readers := make([]reader, len(m.readers))
-	writers := map[int32]*schema.StreamWriter[tok]{}
+	writers := map[int32]xWriter{}
+	// caller-owned slices the array readers are windows of
+	bufs := make([]xBuf, len(t.Bufs))
+	bufWant := make([][]elem, len(t.Bufs))
+	bufOwner := make([][]int32, len(t.Bufs))
+	for bi, b := range t.Bufs {
+		bufWant[bi] = make([]elem, b.Len)
+		bufOwner[bi] = make([]int32, b.Len)
+		for c := range bufWant[bi] {
+			bufWant[bi][c] = junk(b.Elem, -9, int32(c))
+			bufOwner[bi][c] = -1
+		}
+	}
+	for oi := range t.Ops {
+		if s := t.Ops[oi].Src; s != nil && !s.Pipe {
+			for i := range s.Items {
+				bufWant[s.Buf][s.Off+i] = s.elemAt(i)
+				bufOwner[s.Buf][s.Off+i] = s.ID
+			}
+		}
+	}
 	gates := map[int32]chan struct{}{}
 
 	out.buildPan = mon.Safe(func() {
+		for bi, b := range t.Bufs {
+			bufs[bi] = newBuf(b.Elem, bufWant[bi])
+		}
 		for oi := range t.Ops {
 			op := &t.Ops[oi]
 			switch op.Kind {
 			case "pipe":
-				rd, sw := schema.Pipe[tok](op.Src.Cap)
+				rd, sw := newPipe(op.Src.Elem, op.Src.Cap)
 				readers[op.Out[0]] = rd
 				writers[op.Src.ID] = sw
 				lg := &wlog{}
@@ -300,11 +337,7 @@ func runTree(t *tree, sc schedule, rr *mon.Rand) *runOut {
 					late = append(late, start)
 				}
 			case "array":
-				arr := make([]tok, len(op.Src.Items))
-				for i := range arr {
-					arr[i] = tok{Src: op.Src.ID, Seq: int32(i), Val: val0(op.Src.ID, int32(i))}
-				}
-				readers[op.Out[0]] = schema.StreamReaderFromArray(arr)
+				readers[op.Out[0]] = bufs[op.Src.Buf].window(op.Src.Off, len(op.Src.Items), op.Src.SliceCap)
 			case "copy":
 				outs := readers[op.In[0]].Copy(op.N)
 				if len(outs) != len(op.Out) {
@@ -315,13 +348,13 @@ func runTree(t *tree, sc schedule, rr *mon.Rand) *runOut {
 					readers[o] = outs[i]
 				}
 			case "convert":
-				readers[op.Out[0]] = schema.StreamReaderWithConvert(readers[op.In[0]], op.Conv.fn())
+				readers[op.Out[0]] = readers[op.In[0]].convert(op.Conv)
 			case "merge":
 				ins := make([]reader, len(op.In))
 				for i, id := range op.In {
 					ins[i] = readers[id]
 				}
-				readers[op.Out[0]] = schema.MergeStreamReaders(ins)
+				readers[op.Out[0]] = ins[0].mergeAll(ins)
 			case "skip":
 				rd := readers[op.In[0]]
 				want := m.readers[op.In[0]].strands[0].Els
@@ -383,6 +416,17 @@ func runTree(t *tree, sc schedule, rr *mon.Rand) *runOut {
 	go func() { wg.Wait(); close(done) }()
 
 	out.wait, out.dump = mon.WaitDone(done, 90*time.Second)
+	if out.wait != mon.Inconclusive {
+		// every harness goroutine is done or parked for good: the caller's slices must still
+		// hold exactly what the caller put there
+		for bi := range bufs {
+			for c, got := range bufs[bi].cells() {
+				if want := bufWant[bi][c]; !got.eq(want) {
+					out.bufDiffs = append(out.bufDiffs, bufDiff{Buf: bi, Cell: c, Want: want, Got: got, Owner: bufOwner[bi][c]})
+				}
+			}
+		}
+	}
 	if out.wait != mon.Finished {
 		for i, g := range out.dump {
 			if i > 0 && !ignoredG[g.ID] {
